@@ -10,8 +10,14 @@ CfgSet == {c \in [mode : Modes, maxHdr : MaxHdrs, maxBody : MaxBodies, override 
               /\ c.mode = "client" => (c.respond = "sync" /\ ~c.btimeout /\ ~c.shut /\ c.override = None)
               /\ c.mode = "server" => ~c.head}
 
-MCInit == \E c \in CfgSet :
-             \/ c.mode = "server" /\ \E x \in ReqIdx : InitWith(c, ReqWire(x))
-             \/ c.mode = "client" /\ \E x \in RespIdx : InitWith(c, RespWire(x))
-MCSpec == MCInit /\ [][Next]_<<vars, step>>
+VARIABLE full          \* what a reader given the whole wire (and then EOF) delivers - computed once
+MCInit == /\ \E c \in CfgSet :
+               \/ c.mode = "server" /\ \E x \in ReqIdx : InitWith(c, ReqWire(x))
+               \/ c.mode = "client" /\ \E x \in RespIdx : InitWith(c, RespWire(x))
+          /\ full = FullParse(cfg, wire)
+MCNext == Next /\ UNCHANGED full
+MCSpec == MCInit /\ [][MCNext]_<<vars, step, full>>
+MCView == <<vars, full>>
+(* C05: what was delivered is a prefix of what the peer sent in full *)
+PrefixOfSent == PrefixOf(full)
 =============================================================================
